@@ -23,6 +23,10 @@ def run(chk, ctx):
     key_rule(chk, "C04.KEY", runs)
     shared.rule_track(chk, "C04.PAIR", runs)
     rule_passes(chk, "C04.PERSIST", runs)
+    # a checkpoint that is written to one storage and moved out of another stays behind in the first
+    from .c01 import rule_label
+    rule_label(chk, "C04.LABEL", runs)
+    chk.describe("C04.LABEL", "a checkpoint is deleted from the storage it was written to (label named at the write == label named at the Move)")
     for run_ in runs:
         it = run_.interp
         for rec in it.yields:
